@@ -511,6 +511,9 @@ def c12(tier='quick', seed=0):
                     sb = Sandbox()
                     sbs.append(sb)
                     sb.mkdir('d1')
+                    if i == 0:
+                        # a directory file that is never edited: its override stays in force whatever else changes
+                        sb.write('d1/a_static.yaml', {'p:static': 'role:static', 'p:extra': 'role:shadowed'})
                 if i == 0:
                     # the main file overrides a plain default and the deprecated name that p:a and p:b replace
                     sb.write('policy.yaml', {'p:d': 'role:file%d' % i, 'p:old': 'role:custom'})
@@ -616,8 +619,8 @@ def c11(tier='quick', seed=0):
     ci11 = 0
     for renamed, same_str, flag, new_ovr, old_ovr, where, shared, hist, quiet_warn in itertools.product(
             [True, False], [True, False], [True, False], [False, True], ['absent', 'arbitrary', 'alias', 'same-as-old-default'],
-            ['main', 'dir', 'dironly'], [False, True], ['fresh', 'overrides-removed', 'old-name-still-registered', 'flag-flipped',
-                                                        'overrides-added'], [False, True]):
+            ['main', 'dir', 'dironly', 'layered'], [False, True], ['fresh', 'overrides-removed', 'old-name-still-registered', 'flag-flipped',
+                                                                   'overrides-added'], [False, True]):
         ci11 += 1
         if not renamed and old_ovr != 'absent':
             continue        # same name: an old-name override is the new-name override
@@ -672,7 +675,14 @@ def c11(tier='quick', seed=0):
                 e.register_default(d)
 
             def put(c):
-                if where == 'main':
+                if where == 'layered':
+                    # the same names overridden in two layers with DIFFERENT values: the later layer is the override in
+                    # force (main file < first directory file < second directory file)
+                    stale = {k: ('rule:svc:new' if (k == old_name and v != 'rule:svc:new' and renamed) else 'role:stale') for k, v in c.items()}
+                    sb.write('policy.yaml', stale)
+                    sb.write('d1/a.yaml', {k: 'role:stale2' for k in c})
+                    sb.write('d1/o.yaml', c)
+                elif where == 'main':
                     sb.write('policy.yaml', c)
                 else:
                     if where == 'dir':
